@@ -99,11 +99,9 @@ func (m *MMap) Close() error {
 		vhook.IO("close", m.file.Name(), m.virtualSize, 0, nil)
 		defer vhook.IO("closeDone", m.file.Name(), m.virtualSize, 0, nil)
 	}
-	vhook.IO("sync", m.file.Name(), m.virtualSize, 0, nil)
 	if err := m.Sync(); err != nil {
 		return err
 	}
-	vhook.IO("syncDone", m.file.Name(), m.virtualSize, 0, nil)
 	// ResetFileSize 负责解除映射并将文件收缩为真实大小
 	if err := m.ResetFileSize(); err != nil {
 		return err
